@@ -580,7 +580,7 @@ func runLimDone(c *core.Ctx) {
 		}
 		isMatch := func(v ssa.Value) bool {
 			call, isCall := v.(*ssa.Call)
-			return isCall && an.StaticCallee(&call.Call) == match && an.PathOf(call.Call.Args[0]) == "recv" && an.PathOf(call.Call.Args[1]) == "p:"+lm.Params[1].Name()
+			return isCall && sameFunc(an.StaticCallee(&call.Call), match) && an.PathOf(call.Call.Args[0]) == "recv" && an.PathOf(call.Call.Args[1]) == "p:"+lm.Params[1].Name()
 		}
 		// a saturation guard (`match && cnt < math.MaxInt64`) only keeps the counter from wrapping: it
 		// cannot fail before 2^63-1 matches, and limit <= cnt is then true for every int64 limit anyway
